@@ -63,6 +63,9 @@ pub fn gen_world(seed: u64, idx: u64, s: &dyn SuiteOps) -> World {
         }
     }
     b.interleave(&mut g, threads);
+    if hsm && g.chance(1, 2) {
+        b.w.knobs.hsm_handle = true;
+    }
     b.w
 }
 
